@@ -47,7 +47,7 @@ def _underscore_assign_edits(sf, lo, hi):
     EXPR is evaluated and its value dropped at once). Only at the start of a statement."""
     out = []
     txt = sf.b[lo:hi]
-    for m in re.finditer(rb"(?<=[;{}\n])([ \t]*)_[ \t]*=(?!=)", txt):
+    for m in re.finditer(rb"(?<=[;{}\n])([ \t]*)_[ \t]*=(?![=>])", txt):
         # statement start: everything between the previous ';' '{' '}' and the `_` is white space
         a = lo + m.start(1) + len(m.group(1))
         # statement start: between the previous `;` `{` `}` and the `_` there is only white space and // comments
